@@ -5,13 +5,17 @@
 (* NP goroutines ("procs") each make one call.  A call is a record            *)
 (*   [kind: "step"|"signal", step, run, sig, input, beh]                      *)
 (* step  in StepIds or "nostep";  sig = "sig" or "nosig" (signals only);       *)
-(* input in {"va","vb","vd","vl"} (accepted by the input schema) or "inv"       *)
+(* input in {"va","vb","vd","vl","vs"} (accepted by the input schema) or "inv"  *)
 (*         (rejected).  "va","vb": raw inputs in normal representation;        *)
 (*         "vd": accepted, but OMITS a property that has a declared default -  *)
 (*         the unserialized value carries the default; "vl": accepted by       *)
 (*         lenient conversion (an int/uint64/float or "5" where an integer, an *)
 (*         integer where a float, "yes" where a bool is declared) - the        *)
-(*         unserialized value is in normal representation.  For every class    *)
+(*         unserialized value is in normal representation; "vs": a bare value  *)
+(*         that is NOT a map, accepted because the scope's object has exactly  *)
+(*         one property (the schema takes it as shorthand for that property,   *)
+(*         through nested single-property objects too) - the unserialized      *)
+(*         value is the object with that property set.  For every class       *)
 (*         the unserialized value Native(in) is a value different from the raw *)
 (*         input: the handler must get Native(in), whatever Go type the raw    *)
 (*         input has (a step whose input scope is map-based unserializes       *)
@@ -55,7 +59,7 @@ Procs == 1..NP
 NoStep == "nostep"
 SigId == "sig"
 NoSig == "nosig"
-ValidInputs == {"va", "vb", "vd", "vl"}
+ValidInputs == {"va", "vb", "vd", "vl", "vs"}
 AllInputs == ValidInputs \cup {"inv"}
 Behs == {"ok", "ok2", "okr", "undeclared", "baddata"}
 
@@ -78,6 +82,7 @@ vars == <<call, pc, arg, mutex, created, stepData, initCount, ledger, res>>
 Native(in) == CASE in = "va" -> "nva" [] in = "vb" -> "nvb"
                 [] in = "vd" -> "nvd"      \* raw input plus the declared defaults of the omitted properties
                 [] in = "vl" -> "nvl"      \* raw input with every value converted to its normal representation
+                [] in = "vs" -> "nvs"      \* the object whose single property is (the unserialized form of) the bare value
                 [] OTHER -> "none"
 Unser(in) == IF in \in ValidInputs THEN [ok |-> TRUE, v |-> Native(in)]
                                    ELSE [ok |-> FALSE, v |-> "none"]
